@@ -88,7 +88,8 @@ pub fn gen_number(r: &mut Rng, cfg: &GenCfg) -> MVal {
                     // a full 53-bit mantissa at a moderate magnitude: its shortest decimal form has 16-17 significant
                     // digits and no exponent, the case where a decimal-to-double shortcut is most likely to be off by one ulp
                     let m = (r.next_u64() >> 11) as f64 / (1u64 << 53) as f64;
-                    let scale = [1e-4, 1e-2, 1.0, 1e3, 1e7, 1e12, 1e15][r.idx(7)];
+                    // (1e20 / 1e21: written without an exponent these are 20- and 21-digit integer literals just beyond u64)
+                    let scale = [1e-4, 1e-2, 1.0, 1e3, 1e7, 1e12, 1e15, 1e20, 1e21][r.idx(9)];
                     MVal::f(if r.chance(1, 4) { -(m * scale) } else { m * scale })
                 } else {
                     MVal::f(*r.pick(F64S))
